@@ -197,3 +197,59 @@ pub fn finish<const N: usize>(m: Map<Tok, Tok, N>) {
 }
 
 pub type TSet<const N: usize> = Set<Tok, N>;
+
+/// Arbitrary reachable pre-state of `Set<Tok,N>` (model: keys/ks only)
+pub fn any_set<const N: usize>() -> (Set<Tok, N>, Model<N>) {
+    let mut s: Set<Tok, N> = empty_set();
+    let mut md = Model::<N>::new();
+    let n = vf::any_usize();
+    vf::assume(n <= N);
+    let mut i = 0;
+    while i < N {
+        let (k, t) = (vf::any_u8(), vf::any_u8());
+        if i < n {
+            vf::assume(!md.has(k));
+            let kt = Tok::tagged(k, t);
+            md.insert(k, 0, kt.serial(), 0);
+            vf::check(s.insert(kt), 100);
+        }
+        i += 1;
+    }
+    (s, md)
+}
+
+/// order-free observation of a set against the model (ids as in `observe`)
+pub fn observe_set<const N: usize>(s: &Set<Tok, N>, md: &Model<N>) {
+    vf::check(s.len() == md.n, 201);
+    vf::check(s.is_empty() == (md.n == 0), 205);
+    vf::check(s.capacity() == N && s.len() <= s.capacity(), 206);
+    let q = vf::any_u8();
+    let probe = BKey::free(q);
+    let want = md.find(q);
+    vf::check(s.contains(&probe) == want.is_some(), 204);
+    match (s.get(&probe), want) {
+        (Some(k), Some(i)) => { vf::check(k.key() == q, 204); vf::check(k.serial() == md.ks[i], 208); }
+        (None, None) => {}
+        _ => vf::check(false, 204),
+    }
+    let mut cnt = 0usize;
+    let mut total = 0usize;
+    for k in s.iter() {
+        vf::check(tok::live(k.serial()), 904);
+        total += 1;
+        if k.key() == q {
+            cnt += 1;
+            if let Some(i) = want { vf::check(k.serial() == md.ks[i], 207); }
+        }
+    }
+    vf::check(total == md.n, 202);
+    vf::check(cnt == want.is_some() as usize, 203);
+    // C05 for sets
+    vf::check(cnt <= 1, 212);
+    vf::check(total == s.len(), 211);
+}
+
+pub fn finish_set<const N: usize>(s: Set<Tok, N>) {
+    drop(s);
+    vf::check(tok::balanced(), 302);
+}
